@@ -15,6 +15,7 @@ CONSTANTS
   InstRes = {"value", "void", "none"}
   TermKinds = {"ret", "invoke"}
   MaxSrc = 0
+  TrackQueries = FALSE
   Observers = {"PrintModule", "PrintFunc", "PrintBlock", "QueryType", "QueryIdent", "QueryOperands", "QuerySuccs"}
   EmitFile = "transitions.ndjson"
 VIEW View
